@@ -144,6 +144,8 @@ def run(rep, idx, tier):
     rep.require("C08.6", 1)
     rep.require("C08.7", 2)
     rep.require("C08.8", 1)
+    from .c19 import shared_state
+    shared_state(rep, idx, rule="C08.8", classes=["Arbiter"])
     from . import glue as _g
     # the stall wire defaults to 1 on purpose: an initiator that does not own the bus is stalled (C08.2 checks that value)
     _g.reset_discipline(rep, "C08.8", idx, ["wishbone/bus:Arbiter"], allowed_init=[(("Arbiter", "intr_bus_stall"), "1")])
